@@ -523,4 +523,71 @@ def run(chk):
                 else:
                     raise core.AnalysisBroken("C10.reqindex: %s:%d index list %s filled in a loop that does not range over %s" % (f["file"], a["l"], L, P))
 
+    # ---- C10.esmrypos: where ExtESmry looks for vector k in an ESMRY file
+    r_ep = chk.rule("C10.esmrypos", "ExtESmry::load_esmry seeks vector k at: position of the RSTEP header + the two INTE arrays RSTEP and TSTEP with their headers + k x (header + one REAL array of the current number of steps), the header being the bytes writeBinaryHeader emits; and the RSTEP position is taken right before the header whose name is checked to be RSTEP", floor=2)
+    from verif import symb as sy
+    import rules.C07 as c07
+    hx = chk.facts([c07.OUT, c07.UTIL])
+    hdr_bytes = sum(c07.header_sums(hx)[0])
+    le = fx.fn1("Opm::EclIO::ExtESmry::load_esmry")
+    seeks = [n for n in walk(le["body"]) if n["k"] == "MCall" and n.get("m") == "seekg" and n.get("a")]
+    tgt = [n for n in seeks if strip(n["a"][0]).get("k") == "Ref" and strip(n["a"][0]).get("d") == "Var"]
+    if len(tgt) != 1:
+        raise core.AnalysisBroken("load_esmry: the seek to a vector (seekg of a local position) was not found (%d candidates)" % len(tgt))
+    posv = strip(tgt[0]["a"][0])["n"]
+    # the block that computes the position
+    pmq = {}
+    for x in walk(le["body"]):
+        for ch in children(x):
+            pmq[id(ch)] = x
+    blk = pmq.get(id(tgt[0]))
+    while blk is not None and blk.get("k") != "Block":
+        blk = pmq.get(id(blk))
+
+    def leaf_e(e):
+        if e.get("k") == "Call" and (e.get("fn") or "").endswith("sizeOnDiskBinary") and len(e.get("a") or []) >= 2:
+            ty = [x["n"] for x in walk(e["a"][1]) if x["k"] == "Ref" and x.get("d") == "Enum"]
+            first = show(decast_(e["a"][0]))
+            return sy.S("array(%s,%s)" % (first, ty[0] if ty else "?"))
+        sb = None
+        if e.get("k") == "OpCall" and e.get("op") == "[]" and len(e.get("a") or []) == 2:
+            sb = strip(e["a"][0])
+        if sb is not None and sb.get("k") == "Mem":
+            return sy.S(sb["n"] + "[.]")
+        if e.get("k") == "MCall" and e.get("m") == "at" and strip(e.get("obj") or {}).get("k") in ("OpCall",):
+            return sy.S("key")
+        return None
+    from verif.tree import decast as decast_
+    locs_e = {v["n"] for n in walk(le["body"]) if n["k"] == "Decl" for v in n["vars"]}
+    ev2 = sy.Eval(leaf_e, locs_e)
+    outer = ev2.run([n for n in stmt_list(le["body"]) if n["k"] == "Decl"], {})
+    upto = []
+    for st in stmt_list(blk):
+        if st is tgt[0]:
+            break
+        upto.append(st)
+    env_e = ev2.run(upto, outer)
+    got = env_e.get(posv)
+    kterm = env_e.get([v["n"] for n in stmt_list(blk) if n["k"] == "Decl" for v in n["vars"] if isinstance(v.get("init"), dict) and meth(strip(v["init"]))[0] == "at"][0]) if [v for n in stmt_list(blk) if n["k"] == "Decl" for v in n["vars"] if isinstance(v.get("init"), dict) and meth(strip(v["init"]))[0] == "at"] else None
+    K_ = kterm if kterm is not None else sy.S("key")
+    nt = [x for x in walk(le["body"]) if x["k"] == "Call" and (x.get("fn") or "").endswith("sizeOnDiskBinary")]
+    nstep = show(decast_(nt[0]["a"][0])) if nt else "?"
+    want_e = sy.add(sy.S("m_rstep_offset[.]"), sy.mul(sy.S("array(%s,REAL)" % nstep), K_), sy.mul(sy.I(2), sy.S("array(%s,INTE)" % nstep)), sy.I(2 * hdr_bytes), sy.mul(K_, sy.I(hdr_bytes)))
+    chk.instance(r_ep, "vector", sample=dict(seek_target=sy.show_term(got)[:300], header_bytes=hdr_bytes, matches=got == want_e))
+    if got != want_e:
+        chk.violation(r_ep, "vector", "ExtESmry::load_esmry seeks vector k at %s; the file holds RSTEP and TSTEP (two INTE arrays with a %d-byte header each) and then one %d-byte header plus one REAL array per vector, i.e. %s: the data read for a key is another vector's (or garbage)" % (sy.show_term(got), hdr_bytes, hdr_bytes, sy.show_term(want_e)), le["file"], tgt[0]["l"])
+    oe = fx.fn1("Opm::EclIO::ExtESmry::open_esmry")
+    st_o = stmt_list(oe["body"])
+    pos_i = [i for i, n in enumerate(st_o) if n["k"] == "Bin" and n.get("asg") and any(meth(x)[0] == "tellg" for x in walk(n["c"][1])) and strip(n["c"][0]).get("d") == "Parm"]
+    ok_o = False
+    if len(pos_i) == 1:
+        rest = st_o[pos_i[0] + 1:]
+        hdr_then = [i for i, n in enumerate(rest) if any(x["k"] == "Call" and (x.get("fn") or "").endswith("readBinaryHeader") for x in walk(n))]
+        name_chk = [i for i, n in enumerate(rest) if n["k"] == "If" and any(x["k"] == "Str" and x["v"].strip() in ("RSTEP", "TSTEP", "UNITS", "KEYCHECK") for x in walk(n["cond"]))]
+        if hdr_then and name_chk and hdr_then[0] == 0 and name_chk[0] == 1:
+            ok_o = any(x["k"] == "Str" and x["v"].strip() == "RSTEP" for x in walk(rest[1]["cond"]))
+    chk.instance(r_ep, "rstep_offset", sample=dict(taken_before_rstep_header=ok_o))
+    if not ok_o:
+        chk.violation(r_ep, "rstep_offset", "ExtESmry::open_esmry no longer records the stream position immediately before the header that is then checked to be RSTEP: every vector position computed from it is shifted", oe["file"], st_o[pos_i[0]]["l"] if pos_i else oe["l"])
+
     chk.assumptions += ["the positional seek arithmetic of ESmry::loadData / ExtESmry is not analysed (runtime quantities)"]
